@@ -33,11 +33,16 @@ VARIABLES table,           \* channels after the last returned writer call
           removalStarted,  \* ids targeted by an invoked removal
           removedDone,     \* ids targeted by a returned removal
           wcall,           \* the writer's call in progress: <<"none">> / <<"add">> / <<"rm", targets>>
-          rcall,           \* per reader: <<"none">> or <<what, id, after>>
+          rcall,           \* per reader: <<"none">> or <<what, id, after, sawLive>>
           ctx,             \* per reader: <<"none">> / <<"seal", id, nextseq>> / <<"open", id>>
-          live             \* (SingleCtx) channels with a live seal context
+          live,            \* (SingleCtx) channels with a live seal context
+          chanSeq          \* (SingleCtx) next sequence number of a channel's key: id -> Nat
 
-vars == <<table, lastId, ever, removalStarted, removedDone, wcall, rcall, ctx, live>>
+vars == <<table, lastId, ever, removalStarted, removedDone, wcall, rcall, ctx, live, chanSeq>>
+
+(* the harness adds seal channels under even and open channels under odd ids (shared memory);
+   the in-memory harness adds seal channels only *)
+IsSeal(id) == SingleCtx \/ id % 2 = 0
 
 NoId == 999
 
@@ -45,14 +50,14 @@ Init == /\ table = {} /\ lastId = NoId /\ ever = {} /\ removalStarted = {} /\ re
         /\ wcall = <<"none">>
         /\ rcall = [r \in Readers |-> <<"none">>]
         /\ ctx = [r \in Readers |-> <<"none">>]
-        /\ live = {}
+        /\ live = {} /\ chanSeq = <<>>
 
 Full == Cap # 0 /\ Cardinality(table) >= Cap
 
 (* ---- writer ---- *)
 InvAdd == /\ wcall = <<"none">>
           /\ wcall' = <<"add">>
-          /\ UNCHANGED <<table, lastId, ever, removalStarted, removedDone, rcall, ctx, live>>
+          /\ UNCHANGED <<table, lastId, ever, removalStarted, removedDone, rcall, ctx, live, chanSeq>>
 
 RetAddOk(id) == /\ wcall = <<"add">>
                 /\ ("C42" \in Check) =>
@@ -61,25 +66,26 @@ RetAddOk(id) == /\ wcall = <<"add">>
                       /\ id \notin ever
                 /\ table' = table \cup {id} /\ ever' = ever \cup {id} /\ lastId' = id
                 /\ wcall' = <<"none">>
+                /\ chanSeq' = [i \in DOMAIN chanSeq \cup {id} |-> IF i \in DOMAIN chanSeq THEN chanSeq[i] ELSE 0]
                 /\ UNCHANGED <<removalStarted, removedDone, rcall, ctx, live>>
 
 RetAddOos == /\ wcall = <<"add">>
              /\ ("C42" \in Check) => Full                 \* C42: only when full
              /\ wcall' = <<"none">>
-             /\ UNCHANGED <<table, lastId, ever, removalStarted, removedDone, rcall, ctx, live>>
+             /\ UNCHANGED <<table, lastId, ever, removalStarted, removedDone, rcall, ctx, live, chanSeq>>
 
 (* remove(id) targets {id}; remove_if(p) targets the ids p selects; remove_all targets table *)
 InvRemove(T) == /\ wcall = <<"none">>
                 /\ wcall' = <<"rm", T>>
                 /\ removalStarted' = removalStarted \cup T
-                /\ UNCHANGED <<table, lastId, ever, removedDone, rcall, ctx, live>>
+                /\ UNCHANGED <<table, lastId, ever, removedDone, rcall, ctx, live, chanSeq>>
 
 RetRemove == /\ wcall[1] = "rm"
              /\ table' = table \ wcall[2]
              /\ removedDone' = removedDone \cup wcall[2]
-             /\ live' = live \ wcall[2]
+             /\ UNCHANGED live
              /\ wcall' = <<"none">>
-             /\ UNCHANGED <<lastId, ever, removalStarted, rcall, ctx>>
+             /\ UNCHANGED <<lastId, ever, removalStarted, rcall, ctx, chanSeq>>
 
 (* ---- readers ---- *)
 InvReader(r, what, id) ==
@@ -87,8 +93,8 @@ InvReader(r, what, id) ==
    /\ what \in {"setup", "seal", "open"}
    /\ (what = "seal") => (ctx[r][1] = "seal" /\ ctx[r][2] = id)
    /\ (what = "open") => (ctx[r][1] = "open" /\ ctx[r][2] = id)
-   /\ rcall' = [rcall EXCEPT ![r] = <<what, id, id \in removedDone>>]
-   /\ UNCHANGED <<table, lastId, ever, removalStarted, removedDone, wcall, ctx, live>>
+   /\ rcall' = [rcall EXCEPT ![r] = <<what, id, id \in removedDone, id \in live>>]
+   /\ UNCHANGED <<table, lastId, ever, removalStarted, removedDone, wcall, ctx, live, chanSeq>>
 
 (* the channel was found (its key was used); `seq` only matters for a successful seal *)
 RetFound(r, res, seq) ==
@@ -96,16 +102,23 @@ RetFound(r, res, seq) ==
    /\ res \in {"ok", "fail"}
    /\ ("C41" \in Check) => ~rcall[r][3]                   \* C41: not after the removal returned
    /\ LET what == rcall[r][1]  id == rcall[r][2] IN
-      /\ ("C40" \in Check /\ what = "setup" /\ SingleCtx /\ id % 2 = 0) => id \notin live   \* C40 (memory)
+      /\ ("C40" \in Check /\ what = "setup" /\ SingleCtx) => id \notin live                \* C40 (memory)
       /\ ("C40" \in Check /\ what = "seal" /\ res = "ok") => seq = ctx[r][3]                 \* C40
       /\ ctx' = [ctx EXCEPT ![r] =
-                    IF what = "setup" THEN (IF id % 2 = 0 THEN <<"seal", id, 0>> ELSE <<"open", id>>)
+                    IF what = "setup"
+                    THEN (IF IsSeal(id)
+                          \* a context on the in-memory state continues the channel's numbering
+                          THEN <<"seal", id, IF SingleCtx /\ id \in DOMAIN chanSeq THEN chanSeq[id] ELSE 0>>
+                          ELSE <<"open", id>>)
                     ELSE IF what = "seal" /\ res = "ok" THEN <<"seal", id, seq + 1>>
                     ELSE @]
-      /\ live' = IF what = "setup" /\ id % 2 = 0
-                 THEN (live \ (IF ctx[r][1] = "seal" THEN {ctx[r][2]} ELSE {})) \cup {id}
-                 ELSE live
-   /\ rcall' = [rcall EXCEPT ![r] = <<"none">>]
+      /\ live' = IF what = "setup" /\ IsSeal(id) THEN live \cup {id} ELSE live
+      /\ chanSeq' = IF what = "seal" /\ res = "ok" /\ id \in DOMAIN chanSeq
+                    THEN [chanSeq EXCEPT ![id] = seq + 1] ELSE chanSeq
+   /\ rcall' = [q \in Readers |->
+                 IF q = r THEN <<"none">>
+                 ELSE IF rcall[q][1] # "none" /\ rcall[r][1] = "setup" /\ rcall[q][2] = rcall[r][2]
+                      THEN <<rcall[q][1], rcall[q][2], rcall[q][3], TRUE>> ELSE rcall[q]]
    /\ UNCHANGED <<table, lastId, ever, removalStarted, removedDone, wcall>>
 
 RetNotFound(r) ==
@@ -114,11 +127,19 @@ RetNotFound(r) ==
       \* C41: only for a channel a removal was invoked for — or (memory) a refused second context
       /\ \/ "C41" \notin Check
          \/ id \in removalStarted
-         \/ (SingleCtx /\ what = "setup" /\ id \in live)
-      /\ ctx' = [ctx EXCEPT ![r] = IF what = "open" THEN @ ELSE <<"none">>]
-      /\ live' = IF ctx[r][1] = "seal" /\ what # "open" THEN live \ {ctx[r][2]} ELSE live
+         \/ (SingleCtx /\ what = "setup" /\ (id \in live \/ rcall[r][4]))   \* refused: a loan was live
+      \* shared memory: a seal context expires on NotFound; in memory it stays (still a live loan)
+      /\ ctx' = [ctx EXCEPT ![r] = IF what = "open" \/ SingleCtx THEN @ ELSE <<"none">>]
+      /\ UNCHANGED live
    /\ rcall' = [rcall EXCEPT ![r] = <<"none">>]
-   /\ UNCHANGED <<table, lastId, ever, removalStarted, removedDone, wcall>>
+   /\ UNCHANGED <<table, lastId, ever, removalStarted, removedDone, wcall, chanSeq>>
+
+(* a reader drops its context (in-memory state: the loan goes back) *)
+DropCtx(r) ==
+   /\ rcall[r] = <<"none">> /\ ctx[r][1] # "none"
+   /\ live' = live \ {ctx[r][2]}
+   /\ ctx' = [ctx EXCEPT ![r] = <<"none">>]
+   /\ UNCHANGED <<table, lastId, ever, removalStarted, removedDone, wcall, rcall, chanSeq>>
 
 Ids == 0..MaxId
 Next == \/ InvAdd \/ RetAddOos \/ RetRemove
@@ -126,6 +147,7 @@ Next == \/ InvAdd \/ RetAddOos \/ RetRemove
         \/ \E T \in SUBSET Ids : InvRemove(T)
         \/ \E r \in Readers, id \in ever : \E what \in {"setup", "seal", "open"} : InvReader(r, what, id)
         \/ \E r \in Readers : RetNotFound(r)
+        \/ \E r \in Readers : DropCtx(r)
         \/ \E r \in Readers, res \in {"ok", "fail"}, seq \in 0..3 : RetFound(r, res, seq)
 
 Spec == Init /\ [][Next]_vars
